@@ -168,7 +168,7 @@ def units(prop):
         Unit(f'{prop}.guess_type[str]', UTILS_PY, 'guess_type', guess_setup(STR), guess_post(prop, 'str'), prop=prop),
         Unit(f'{prop}.guess_type[int]', UTILS_PY, 'guess_type', guess_setup(INT), guess_post(prop, 'int'), prop=prop),
         Unit(f'{prop}.guess_type[bool]', UTILS_PY, 'guess_type', guess_setup(BOOL), guess_post(prop, 'bool'), prop=prop),
-        main_order(prop),
+        main_backend_unit(prop),
         parser_for_backend_unit(prop),
         apply_known_unit(prop),
         main_load_unit(prop),
@@ -418,6 +418,16 @@ def main_load_post(prop):
                 # environment after file (so it wins), once
                 res.oblige(p, f'{prop}.main_load.environment_applied_after_the_file[{sig}]', z3.BoolVal(
                     kinds.count('apply_env') == 1 and (not ak or kinds.index('apply_known') < kinds.index('apply_env'))))
+            if p.kind != 'raise':
+                # -r/--repository of the command line wins over file and environment: it is stored into cfg after the environment was
+                # applied, iff it was given, and it is the value of the command line
+                sets = [e for e in p.st.events if e.kind == 'setattr' and e.data['obj'] == 'cfg' and e.data['name'] == 'repository']
+                rep = b.args.get('repository')
+                given = z3.Not(rep.ty.is_none(rep.z))
+                res.oblige(p, f'{prop}.main_load.cli_repository_overrides_after_the_environment[{sig}]', z3.And(
+                    given == z3.BoolVal(len(sets) == 1),
+                    z3.BoolVal(all('apply_env' in kinds and kinds.index('apply_env') < kinds.index('setattr') for _ in sets)),
+                    z3.BoolVal(all(isinstance(e.data['value'], SV) and (e.data['value'] is rep or z3.eq(e.data['value'].z, rep.ty.val(rep.z)) or z3.eq(e.data['value'].z, rep.z)) for e in sets))))
         res.oblige([], f'{prop}.main_load.paths_checked', z3.BoolVal(n['skip'] >= 1 and n['fail'] >= 3 and n['ok'] >= 2))
     return post
 
@@ -425,6 +435,143 @@ def main_load_post(prop):
 def main_load_unit(prop):
     return Unit(f'{prop}.main_load_file_options', MAIN_PY, 'main', main_load_setup, main_load_post(prop),
                 stmt=(_assign_to('cfg'), _assign_to('backend_type')), prop=prop)
+
+
+# ------------------------------------------------------------------ main(): backend options, merged defaults, final parse
+BTYPE = models.opaque_type('BackendType')
+DEFAULTS = models.opaque_type('DefaultsDict')
+
+
+def main_backend_setup(b):
+    remaining = sym.const(REMAINING, 'remaining_file_options')
+    b.remaining = remaining
+    b.bind('remaining_file_options', remaining)
+    args = Obj('args', configuration_file=sym.const(Opt(PATHV), 'configuration_file'), action=sym.const(STR, 'action'))
+    args._lenient = True
+    b.args = args
+    b.bind('args', args)
+    rep = (sym.const(STR, 'repo_backend'), sym.const(STR, 'repo_connection'))
+    b.rep = rep
+    defaults = Obj('defaults')
+    b.defaults = defaults
+
+    def upd(interp, st, a, k):
+        st.emit('defaults_update', arg=a[0] if a else None)
+        yield st, None
+
+    defaults._attrs['update'] = Model('update', upd)
+    cfg_dict = Obj('cfg.dict()')
+
+    def cfgdict(interp, st, a, k):
+        st.emit('cfg_dict')
+        yield st, defaults
+
+    cfg = Obj('cfg', repository=rep, dict=Model('cfg.dict', cfgdict))
+    b.bind('cfg', cfg)
+    bdict = Obj('backend_cfg.dict()')
+    b.bdict = bdict
+
+    def b_apply_known(interp, st, a, k):
+        st.emit('backend_apply_known', arg=a[0] if a else None)
+        for cls in ('FileNotFoundError', 'ValueError', 'InvalidConfig'):
+            bad = st.copy()
+            bad.emit('backend_apply_known_failed')
+            yield bad, Raised(Exc(cls))
+        yield st, sym.fresh(BOOL, 'has_unknown_file_options')
+
+    def b_apply_env(interp, st, a, k):
+        st.emit('backend_apply_env')
+        yield st, None
+
+    def b_dict(interp, st, a, k):
+        st.emit('backend_dict')
+        yield st, bdict
+
+    backend_cfg = Obj('backend_cfg', apply_known=Model('apply_known', b_apply_known), apply_env=Model('apply_env', b_apply_env),
+                      dict=Model('dict', b_dict))
+
+    def load_backend(interp, st, a, k):
+        from vf.interp import StarArg
+        flat = []
+        for x in a:
+            flat += list(x.v) if isinstance(x, StarArg) and isinstance(x.v, tuple) else [x]
+        st.emit('load_backend', args=flat)
+        bad = st.copy()
+        yield bad, Raised(Exc('ReplicatError'))
+        yield st, (sym.const(BTYPE, 'backend_type'), sym.const(STR, 'connection_string'))
+
+    b.bind('utils', Obj('utils', load_backend=Model('load_backend', load_backend)))
+
+    def config_for_backend(interp, st, a, k):
+        st.emit('config_for_backend', arg=a[0] if a else None, kwargs=dict(k))
+        yield st, Model('backend_config_type', lambda i2, s2, a2, k2: iter([(s2, backend_cfg)]))
+
+    b.bind('config', Obj('config', config_for_backend=Model('config_for_backend', config_for_backend)))
+    b.bind('logger', Obj('logger', **{n: Model(n, lambda i, s, a, k: iter([(s, None)])) for n in ('debug', 'info', 'warning', 'error')}))
+    b.bind('vars', Model('vars', lambda i, s, a, k: iter([(s, None)])))
+
+    def parse_known_args(interp, st, a, k):
+        st.emit('final_parse', args=list(a), kwargs=dict(k))
+        yield st, (None, sym.fresh(BOOL, 'unknown_args'))
+
+    main_parser = Obj('main_parser', parse_known_args=Model('parse_known_args', parse_known_args))
+
+    def make_main_parser(interp, st, a, k):
+        st.emit('make_main_parser', args=list(a), kwargs=dict(k))
+        yield st, main_parser
+
+    def parser_for_backend(interp, st, a, k):
+        st.emit('parser_for_backend', arg=a[0] if a else None)
+        yield st, Obj('backend_parser')
+
+    b.bind('cli', Obj('cli', initial_parser=Obj('initial_parser'), common_options_parser=Obj('common_options_parser'),
+                      make_main_parser=Model('make_main_parser', make_main_parser), parser_for_backend=Model('parser_for_backend', parser_for_backend)))
+    from specs import shared
+    b.bind('exceptions', shared.EXCEPTIONS)
+
+
+def main_backend_post(prop):
+    def post(res):
+        b = res.builder
+        n = 0
+        for p in res.paths:
+            kinds = [e.kind for e in p.st.events]
+            if p.kind == 'raise':
+                continue
+            n += 1
+            first = lambda k: kinds.index(k) if k in kinds else -1
+            lb = p.events('load_backend')
+            # the backend is chosen from the FINAL repository value (file < environment < -r, settled in the first part of main)
+            res.oblige(p, f'{prop}.main_backend.backend_loaded_from_the_final_repository', z3.BoolVal(
+                len(lb) == 1 and len(lb[0].data['args']) == 2 and all(x is y for x, y in zip(lb[0].data['args'], b.rep))
+                and not [e for e in p.st.events if e.kind == 'setattr']))
+            ak = p.events('backend_apply_known')
+            # what the common options did not recognise in the file goes to the backend options, then the environment (which wins)
+            res.oblige(p, f'{prop}.main_backend.backend_file_options_before_backend_environment', z3.BoolVal(
+                len(ak) == 1 and ak[0].data['arg'] is b.remaining and kinds.count('backend_apply_env') == 1
+                and first('backend_apply_known') < first('backend_apply_env')))
+            mk = p.events('make_main_parser')
+            up = p.events('defaults_update')
+            # parser-level defaults = common options overlaid with the backend options, read after both environments were applied
+            res.oblige(p, f'{prop}.main_backend.merged_defaults_installed_before_final_parse', z3.BoolVal(
+                len(mk) == 1 and mk[0].data['kwargs'].get('defaults') is b.defaults and len(up) == 1 and up[0].data['arg'] is b.bdict
+                and first('backend_apply_env') < first('backend_dict') < first('defaults_update') < first('make_main_parser') < first('final_parse')
+                and first('cfg_dict') < first('defaults_update')))
+            fp = p.events('final_parse')
+            res.oblige(p, f'{prop}.main_backend.command_line_parsed_last_into_the_same_namespace', z3.BoolVal(
+                len(fp) == 1 and fp[0].data['kwargs'].get('namespace') is b.args))
+            pf = p.events('parser_for_backend')
+            cf = p.events('config_for_backend')
+            res.oblige(p, f'{prop}.main_backend.backend_options_are_those_of_the_loaded_backend', z3.BoolVal(
+                len(pf) == 1 and len(cf) == 1 and isinstance(pf[0].data['arg'], SV) and isinstance(cf[0].data['arg'], SV)
+                and z3.eq(pf[0].data['arg'].z, z3.Const('backend_type', BTYPE.sort())) and z3.eq(cf[0].data['arg'].z, z3.Const('backend_type', BTYPE.sort()))))
+        res.oblige([], f'{prop}.main_backend.paths_checked', z3.BoolVal(n >= 1))
+    return post
+
+
+def main_backend_unit(prop):
+    return Unit(f'{prop}.main_backend_defaults', MAIN_PY, 'main', main_backend_setup, main_backend_post(prop),
+                stmt=(_assign_to('backend_type'), _assign_to('custom_settings')), prop=prop)
 
 
 # ------------------------------------------------------------------ utils.parse_repository: what "-r <backend>:<connection string>" means
